@@ -21,7 +21,7 @@ RULE = ("38 facade methods x every command set whose table offers the command x 
         "inspect.signature of the command class; each supplied argument takes 2 non-default values) x caller buffers of kind bytearray / bytes / memoryview window x 2-3 well-formed device responses chosen to "
         "match the request and 8 truncated ones (a length field announcing more than was transferred: ~500 bytes at offsets 0-1, 0-3, 4-7, 2-3, FFh at 4, FFFEh and 10000h at 0; all bytes FFh); plus every method x set x 10 exception types raised by the device *after* it took the command (exactly one submission, the same exception object reaches the caller) (VPD page by page code, mode page by page code, PR IN data by service action, disc information by data type, READ CD "
         "sectors by selection bits); READ/WRITE(10,12,16) through the real SCSIDevice / ISCSIDevice and the stand-in bindings with transfers of {1,2,7Fh,80h,7FFFh,8000h,8001h,40000,FFFFh} blocks of 512 bytes (one submission, whole buffers, iSCSI expected transfer length = buffer length); 11 methods (reads and writes) as the first call after a re-plug, plain or with the re-open failing once (EACCES/EMFILE/EBUSY), on a real SCSIDevice: one submission to the node now at the path; two facades over two devices (different sets, block sizes 512 / 4096) used alternately A.m, B.m', A.m for every pair of methods and offering sets: own device, own operation code, own block size, same CDB for A before and after; the 12 script invocations shipped under tools/ and examples/ (inquiry, getlbastatus, mtx status/load/unload against a simulated changer, read16, read_cd, read_disc_information, readcapacity10/16, reportluns, reportpriority) run as a user runs them on both transports: no exception, CDB lengths, printed values agree with the device. after every successful call: decode the returned command again, submit it again, repeat the call on the same facade (same CDB, one submission each, equal result, fresh buffers). Non-trivial = at least one optional argument supplied or a non-SPC command set; distinct = distinct (method, "
-        "set, argument dict, response). Every method x set over a real device of either transport twice, with all clocks of the time module advanced by {0,1,299,301,3600,10^7} s in between: one command each, same CDB, the attached set's operation code. Every method x set x transport called 260 times in a row (thorough: 1100; 66000 for six methods): every call one command, CDB and result of the first call.")
+        "set, argument dict, response). Every method x set over a real device of either transport twice, with all clocks of the time module advanced by {0,1,299,301,3600,10^7} s in between: one command each, same CDB, the attached set's operation code. Every method x set x transport called 260 times in a row (thorough: 1100; 66000 for six methods): every call one command, CDB and result of the first call. Second attach to the SAME device object after the node was re-plugged with a unit of another type (SG_IO) or after the caller changed dev.opcodes (both transports) x 20 ordered pairs of sets x every method either offers: one INQUIRY, then the opcode of the set of the device now there (or refusal with nothing sent).")
 ASSUMPTIONS = [
     "the recording device is a plain object with opcodes/execute/close: it notes call count, a copy of the CDB, id() of both buffers and whether cmd.result was already populated, then fills data-in in place",
     "decode *correctness* is C04's subject: here cmd.result must equal the decoder applied separately to a copy of what the device wrote (same keyword arguments), (the evidence counts the cases where that differs from the decode of an untouched zero buffer, i.e. where decoding before executing would be caught)",
@@ -443,6 +443,75 @@ def run_idle(case, obs=None):
     return out
 
 
+def run_reattach(case, obs=None):
+    """a facade is attached to the SAME device object a second time after the device behind it changed (SG_IO: the node was re-plugged
+    with a unit of another type; any device object: the caller changed dev.opcodes): the second attach probes again - exactly one
+    standard INQUIRY - and the method that follows carries the opcode of the set of the device now there (or is refused with nothing
+    sent when that set does not offer it)"""
+    from vf import harness
+    from vf.sim import install, nodes
+    from vf.sim.target import Target
+    install.ensure()        # (the first use in a process re-imports the library against the stand-in bindings)
+    from pyscsi.pyscsi.scsi import SCSI
+    _, how, st_a, st_b, method = case
+    out = []
+    ta, tb = F.SET_TO_TYPE[st_a], F.SET_TO_TYPE[st_b]
+    where = "%s after a second attach to the same device object (%s, %s -> %s)" % (method, how, st_a, st_b)
+    node = None
+    try:
+        if how == "replug":
+            from pyscsi.pyscsi.scsi_device import SCSIDevice
+            node = nodes.Node(lambda g: Target(device_type=ta if g == 1 else tb))
+            dev = SCSIDevice(node.path, True, True)
+            s = SCSI(dev, 512)
+            node.plug()
+            tgt = node.targets[node.generation]
+        else:
+            rig = harness.Rig(how, tb)
+            dev, tgt = rig.dev, rig.target
+            s = SCSI(dev, 512)
+            dev.opcodes = harness.opcode_set(st_a)       # (the caller's own assignment; attaching again restores the device's set)
+        n0 = len(tgt.log)
+        s(dev)
+        new = [r["cdb"] for r in tgt.log[n0:]]
+        if len(new) != 1 or new[0][0] != 0x12 or new[0][1] & 1:
+            out.append(("reattach/probe", "%s: the second attach sent %r to the device now there, expected exactly one standard INQUIRY" % (where, [c.hex() for c in new])))
+        want_table = harness.opcode_set(st_b)
+        if dev.opcodes is not want_table and set(dev.opcodes.keys) != set(want_table.keys):
+            out.append(("reattach/set", "%s: the device object carries a set with keys like %r, expected %s" % (where, sorted(dev.opcodes.keys)[:3], st_b)))
+        resp = response_for(method, dict(F.FACADE[method][2]), 0)
+        tgt.responder = lambda cdb: resp
+        n0 = len(tgt.log)
+        offered = st_b in F.sets_offering(method)
+        key = F.FACADE[method][1]
+        lookup = "%s_OPCODE_%s" % (st_b.upper(), key) if key in ("9E", "A3") else key
+        try:
+            F.call(s, method)
+            oc = "returned"
+        except AttributeError:
+            oc = "AttributeError"
+        except Exception as e:   # noqa: BLE001
+            oc = "raised %s: %s" % (type(e).__name__, e)
+        new = [r["cdb"] for r in tgt.log[n0:]]
+        if offered:
+            if oc != "returned" or len(new) != 1 or new[0][0] != T.t10_value(st_b, lookup):
+                out.append(("reattach/opcode/%s" % method, "%s: %s, the device saw %r; its %s set assigns %#04x" % (where, oc, [c.hex() for c in new], st_b, T.t10_value(st_b, lookup))))
+        elif new:
+            out.append(("reattach/sent_unoffered/%s" % method, "%s: the %s set does not offer the command, yet the device saw %r" % (where, st_b, [c.hex() for c in new])))
+        if obs is not None:
+            obs.append((oc[:12], len(new)))
+    finally:
+        if node is not None:
+            try:
+                dev.close()
+            except Exception:   # noqa: BLE001
+                pass
+            node.destroy()
+        elif how != "replug":
+            rig.close()
+    return out
+
+
 REPEAT_HEAVY = ("testunitready", "read10", "write10", "inquiry", "readcapacity16", "modesense6")
 
 
@@ -548,6 +617,8 @@ def run_case(case, obs=None):
         return run_idle(case, obs)
     if case[0] == "repeat":
         return run_repeat(case, obs)
+    if case[0] == "reattach":
+        return run_reattach(case, obs)
     if case[0] == "tools":
         from vf.props import c13_tools
         return c13_tools.run_tool(*c13_tools.SCRIPTS[case[1]], case[2])[0]
@@ -730,7 +801,8 @@ def replay(case):
 def partitions(tier):
     return ([[m] for m in F.FACADE] + [["transport", tr, m] for tr in ("sgio", "iscsi") for m in ("read10", "read12", "read16", "write10", "write12", "write16")]
             + [["recovery"]] + [["two", m] for m in F.FACADE] + [["tools"]] + [["idle", tr] for tr in ("sgio", "iscsi")]
-            + [["repeat", tr, m] for tr in ("sgio", "iscsi") for m in F.FACADE])
+            + [["repeat", tr, m] for tr in ("sgio", "iscsi") for m in F.FACADE]
+            + [["reattach", how] for how in ("replug", "sgio", "iscsi")])
 
 
 def run_partition(part, tier, seed):
@@ -768,6 +840,29 @@ def run_partition(part, tier, seed):
                     for k, w in v:
                         acc.violation(k, w, case)
                     acc.outcome((repr(case), tuple(obs), tuple(k for k, _ in v)))
+        return acc
+    if part[0] == "reattach":
+        sets = ("sbc", "ssc", "smc", "mmc", "spc")
+        for st_a in sets:
+            for st_b in sets:
+                if st_a == st_b:
+                    continue
+                for m in F.FACADE:
+                    if st_a not in F.sets_offering(m) and st_b not in F.sets_offering(m):
+                        continue
+                    case = ["reattach", part[1], st_a, st_b, m]
+                    acc.case(case, nontrivial=True, key=repr(case))
+                    obs = []
+                    try:
+                        v = run_case(case, obs)
+                    except Exception:
+                        import traceback
+                        v = [("harness_error", traceback.format_exc()[-600:])]
+                    for k, w in v:
+                        acc.violation(k, w, case)
+                    acc.outcome((repr(case), tuple(obs), tuple(k for k, _ in v)))
+                    acc.transitions += 3
+                    acc.traces += 1
         return acc
     if part[0] == "repeat":
         m = part[2]
